@@ -356,6 +356,234 @@ def withholding(year):
     return obs
 
 
+# ---------------------------------------------------------------------------------------- listing rows
+def row_symmetry(year):
+    """Renumbering permutes the per-payer listing rows (frozen list).  Every other line that reads those rows must be a symmetric
+    function of them: its outcome (value / not implemented / returns at all) is unchanged when two adjacent rows swap all their
+    columns - adjacent transpositions generate every permutation.  z3 over the line summary."""
+    cat = linevc.Cat.get(year)
+    listing = set(listing_lines().get(str(year), []))
+    groups = {}
+    for name in listing:
+        m = re.match(r'^(.*)\.(\w+?)_([a-z]+)_(\d+)$', name)
+        if not m:
+            continue
+        form, num, col, k = m.group(1), m.group(2), m.group(3), int(m.group(4))
+        groups.setdefault((form, num), {}).setdefault(k, {})[col] = name
+    graph = static_reads(year)
+    obs = []
+    for line, reads in sorted(graph.items()):
+        if line in listing:
+            continue
+        for (form, num), rows in sorted(groups.items()):
+            if not any(f'v|{n}' in reads for cols in rows.values() for n in cols.values()):
+                continue
+            fld = cat.fields.get(line)
+            oid = f'C16/{year}/renumber/rows/{line}/{form}.{num}'
+            sm = summary.Summary(year, fld, max_paths=400)
+            if sm.unsupported or sm.value() is None:
+                rep = native_rows(year, line, rows)
+                obs.append(Ob(id=oid, status=oblig.REFUTED if rep.get('reproduced') else oblig.UNDECIDED, backend='native' if rep.get('reproduced') else 'none', function=line,
+                              clause=f'NOT: {line} is unchanged when two listing rows of {form} line {num} swap', solver_output='line outside the subset: ' + str((sm.unsupported or ['no numeric summary'])[0]),
+                              witness=rep, replay=rep))
+                continue
+            F, R = sm.value(), sm.returns()
+            N = z3.Or(*sm.ni) if sm.ni else z3.BoolVal(False)
+            ks = sorted(rows)
+            bad = None
+            t0 = time.time()
+            for a, b in zip(ks, ks[1:]):
+                pairs = []
+                for col in rows[a]:
+                    if col not in rows[b]:
+                        continue
+                    fa, fb = cat.fields[rows[a][col]], cat.fields[rows[b][col]]
+                    ka, ea, _ = linevc.field_kind(fa)
+                    sa, sb = linevc.read_symbol('v', rows[a][col], ka, ea), linevc.read_symbol('v', rows[b][col], ka, ea)
+                    pairs += [(sa, sb), (sb, sa)]
+                F2, R2, N2 = z3.substitute(F, *pairs), z3.substitute(R, *pairs), z3.substitute(N, *pairs)
+                st, model, be, secs, txt = smt.prove([], z3.And(R == R2, N == N2, z3.Implies(R, F == F2)))
+                if st != 'discharged':
+                    bad = (a, b, st, txt, model)
+                    break
+            if bad is None:
+                obs.append(Ob(id=oid, backend='z3', function=line, time_s=time.time() - t0, clause=f'{line} is a symmetric function of the listing rows of {form} line {num} (invariant under each adjacent swap of rows)',
+                              vc=f'{len(ks) - 1} transpositions over the line summary'))
+            else:
+                rep = native_rows(year, line, rows)
+                obs.append(Ob(id=oid, status=oblig.REFUTED if (bad[2] == 'refuted' or rep.get('reproduced')) else oblig.UNDECIDED, backend='z3', function=line,
+                              clause=f'NOT: {line} is unchanged when rows {bad[0]} and {bad[1]} of {form} line {num} swap', solver_output=str(bad[3])[:300],
+                              witness={'rows': [bad[0], bad[1]], 'model': {k: v for k, v in list((bad[4] or {}).items())[:20]}}, replay=rep))
+    return obs
+
+
+def native_rows(year, line, rows):
+    """Replay: three filled rows (one with a blank text column), every order of them: the real line must give one result."""
+    import itertools
+    cat = linevc.Cat.get(year)
+    ks = sorted(rows)
+    content = [{'text': 'payer a', 'amount': 1000.0}, {'text': '', 'amount': 800.0}, {'text': 'payer c', 'amount': 900.0}]
+    outs = {}
+    for perm in itertools.permutations(range(3)):
+        values = {}
+        for k in ks:
+            for col, name in rows[k].items():
+                kind = linevc.field_kind(cat.fields[name])[0]
+                src = content[perm[k]] if k < 3 else None
+                if kind == 'real':
+                    values[name] = src['amount'] if src else 0.0
+                elif kind == 'str':
+                    values[name] = src['text'] if src else ''
+                else:
+                    values[name] = replay.default_for(kind, None, True)
+        r = replay.replay_line(year, line, {}, values)
+        outs[str(perm)] = (r.get('outcome'), r.get('value'), r.get('exc'))
+    distinct = sorted(set(outs.values()), key=str)
+    return {'reproduced': len(distinct) > 1, 'rows': 'amounts 1000 / 800 (blank payer) / 900 in every order of the first three rows', 'results': {k: list(v) for k, v in list(outs.items())[:6]}}
+
+
+# ---------------------------------------------------------------------------------------- withholding boxes
+def sigma_summands(sm):
+    """{name of the copy-count input: (index term, summand term)} of the canonical sums over copies in a line summary."""
+    out = {}
+    for c, v, p in sm.cases:
+        for f in p.facts:
+            if not (z3.is_app(f) and f.decl().kind() == z3.Z3_OP_IMPLIES and z3.is_app(f.arg(1)) and f.arg(1).decl().kind() == z3.Z3_OP_EQ):
+                continue
+            lhs, rhs = f.arg(1).arg(0), f.arg(1).arg(1)
+            if z3.is_app(rhs) and rhs.decl().kind() == z3.Z3_OP_ADD and rhs.num_args() == 2 and rhs.arg(0).decl().name().startswith('Sigma') and lhs.num_args() == 1:
+                out.setdefault(str(lhs.arg(0)), []).append((rhs.arg(0).arg(0), rhs.arg(1)))
+    return out
+
+
+def _bump(S, app, d):
+    return z3.substitute(S, (app, app + d))
+
+
+def withheld_boxes(year):
+    """Every box that carries income tax withheld counts once, dollar for dollar, in the sums the return credits:
+    federal boxes in 1040.25a + 25b, N.C. boxes (selector == NC) in nc_d-400.20a + 20b. Summand-level obligations on the
+    canonical sums over copies (so for every number of copies and every copy)."""
+    import json
+    cat = linevc.Cat.get(year)
+    with open(os.path.join(oblig.VERIF, 'contracts', 'withholding_boxes.json')) as f:
+        spec = json.load(f)
+    obs = []
+    d = z3.Real('delta')
+
+    def total_delta(lines, form, app_of):
+        """sum over the lines of (summand with the box bumped by d) - summand, for the sums over copies of `form`."""
+        tot = z3.RealVal(0)
+        found = False
+        unsupported = None
+        for l in lines:
+            fld = cat.fields.get(l)
+            if fld is None:
+                continue
+            sm = summary.Summary(year, fld, max_paths=400)
+            if sm.unsupported:
+                unsupported = f'{l}: {sm.unsupported[0]}'
+                continue
+            for cnt, pairs in sigma_summands(sm).items():
+                if not cnt.endswith(f'number_{form}'):
+                    continue
+                seen = set()
+                for idx, S in pairs:
+                    if S.sexpr() in seen:
+                        continue
+                    seen.add(S.sexpr())
+                    app = app_of(idx)
+                    tot = tot + (_bump(S, app, d) - S)
+                    found = True
+        return tot, found, unsupported
+
+    # federal
+    for form in extract.NUMBERED:
+        f0 = cat.forms.get(f'{form}:0')
+        if f0 is None:
+            continue
+        for inp in f0.inputs():
+            if (inp.help() or '').strip().lower() != 'federal income tax withheld':
+                continue
+            box = inp.base_name()
+            sym_box = linevc.read_symbol('v', f'{form}:{{n}}.{box}', 'real', None, index=z3.Int('_n')).decl()
+            oid = f'C16/{year}/withholding/box/{form}.{box}-counts-once-in-25a-25b'
+            tot, found, uns = total_delta(['1040.25a', '1040.25b'], form, lambda idx: sym_box(idx))
+            clause = f'a dollar of federal income tax withheld in {form} {box} (any copy) adds exactly a dollar to Form 1040 lines 25a + 25b'
+            if uns and not found:
+                obs.append(Ob(id=oid, status=oblig.UNDECIDED, function='1040.25a/25b', solver_output='outside the subset: ' + uns))
+                continue
+            st, model, be, secs, txt = smt.prove([d > 0], tot == d) if found else ('refuted', None, 'symexec', 0.0, f'no sum over the copies of {form} in 25a / 25b reads {box}')
+            if st == 'discharged':
+                obs.append(Ob(id=oid, backend=be, function='1040.25a/25b', time_s=secs, clause=clause, vc='summand of the canonical sum over copies, box bumped by delta'))
+            else:
+                rep = native_box(year, form, box, ['1040.25a', '1040.25b'])
+                obs.append(Ob(id=oid, status=oblig.REFUTED if (st == 'refuted' or rep.get('reproduced')) else oblig.UNDECIDED, backend=be, function='1040.25a/25b', clause='NOT: ' + clause, solver_output=txt[:300],
+                              witness={'form': form, 'box': box}, replay=rep))
+    # N.C.
+    if 'nc_d-400' in cat.forms:
+        nc = None
+        for form, pairs in spec['state'].items():
+            f0 = cat.forms.get(f'{form}:0')
+            if f0 is None:
+                continue
+            for sel, box in pairs:
+                selfld = cat.fields.get(f'{form}:0.{sel}')
+                if selfld is None or cat.fields.get(f'{form}:0.{box}') is None:
+                    obs.append(Ob(id=f'C16/{year}/withholding/box/{form}.{box}-nc/uncovered', backend='none', bounded=True, cases=0, function='nc_d-400.20a/20b', note=f'{form} has no {sel}/{box} in {year}'))
+                    continue
+                kind, ecls, opt = linevc.field_kind(selfld)
+                sym_box = linevc.read_symbol('v', f'{form}:{{n}}.{box}', 'real', None, index=z3.Int('_n')).decl()
+                sym_sel = linevc.read_symbol('v', f'{form}:{{n}}.{sel}', kind, ecls, index=z3.Int('_n')).decl()
+                sort, consts, none, cls = sym.enum_sort(ecls)
+                oid = f'C16/{year}/withholding/box/{form}.{box}-counts-once-in-nc-20a-20b'
+                holder = {}
+
+                def app_of(idx, sym_box=sym_box, holder=holder):
+                    holder['idx'] = idx
+                    return sym_box(idx)
+                tot, found, uns = total_delta(['nc_d-400.20a', 'nc_d-400.20b'], form, app_of)
+                clause = f'a dollar of state tax withheld in {form} {box} adds exactly a dollar to N.C. D-400 lines 20a + 20b when {sel} is NC (whoever the copy belongs to), and nothing otherwise'
+                if not found:
+                    st, txt, be, secs, model = 'refuted', f'no sum over the copies of {form} in 20a / 20b reads {box}', 'symexec', 0.0, None
+                else:
+                    isnc = sym_sel(holder['idx']) == consts['NC']
+                    hy = [d > 0]
+                    belf = cat.fields.get(f'{form}:0.belongs_to')
+                    if belf is not None:
+                        # the owner of a copy is a required answer: always one of the members, never blank
+                        bk, becls, _ = linevc.field_kind(belf)
+                        bsort, bconsts, bnone, _ = sym.enum_sort(becls)
+                        sym_bel = linevc.read_symbol('v', f'{form}:{{n}}.belongs_to', bk, becls, index=z3.Int('_n')).decl()
+                        hy.append(z3.Or(*[sym_bel(holder['idx']) == c for c in bconsts.values()]))
+                    st, model, be, secs, txt = smt.prove(hy, z3.And(z3.Implies(isnc, tot == d), z3.Implies(z3.Not(isnc), tot == 0)))
+                if st == 'discharged':
+                    obs.append(Ob(id=oid, backend=be, function='nc_d-400.20a/20b', time_s=secs, clause=clause, vc='summands of the canonical sums over copies in 20a and 20b, box bumped by delta, for every owner'))
+                else:
+                    obs.append(Ob(id=oid, status=oblig.REFUTED if st == 'refuted' else oblig.UNDECIDED, backend=be, function='nc_d-400.20a/20b', clause='NOT: ' + clause, solver_output=txt[:300],
+                                  witness={'form': form, 'box': box, 'model': {k: v for k, v in list((model or {}).items())[:12]}}, replay={'reproduced': False}))
+    return obs
+
+
+def native_box(year, form, box, lines):
+    """Replay: one copy of the form with 100.00 in the box and nothing else withheld: the lines must add up to 100."""
+    cat = linevc.Cat.get(year)
+    inputs = {f'1040.number_{f}': (1 if f == form else 0) for f in extract.NUMBERED}
+    values = {}
+    for f in cat.forms[f'{form}:0'].fields():
+        k, e, o = linevc.field_kind(f)
+        values[f'{form}:0.{f.base_name()}'] = 100.0 if f.base_name() == box else replay.default_for(k, e, o)
+    tot, outs = 0.0, {}
+    for l in lines:
+        r = replay.replay_line(year, l, dict(inputs), dict(values))
+        outs[l] = {k: r.get(k) for k in ('outcome', 'value', 'exc')}
+        try:
+            tot += float(r.get('value')) if r.get('outcome') == 'return' and r.get('value') not in (None, 'None') else 0.0
+        except ValueError:
+            pass
+    return {'reproduced': abs(tot - 100.0) > 0.001, 'input': f'one {form} with {box} = 100.00', 'lines': outs, 'credited': tot}
+
+
 def run(tier, seed, t0):
     tasks = []
     for year in extract.YEARS:
@@ -366,6 +594,8 @@ def run(tier, seed, t0):
             tasks.append(Task(f'C16/{year}/renumber/{fname}', renumbering, year, fname, weight=len(form.fields())))
         tasks.append(Task(f'C16/{year}/monotone', monotone, year, weight=400))
         tasks.append(Task(f'C16/{year}/withholding', withholding, year, weight=300))
+        tasks.append(Task(f'C16/{year}/withheld-boxes', withheld_boxes, year, weight=100))
+        tasks.append(Task(f'C16/{year}/rows', row_symmetry, year, weight=100))
     obs = oblig.run_tasks(tasks)
     functions = sorted({o.function for o in obs if o.function and not o.bounded})
     return oblig.finish('C16', tier, seed, obs, t0, functions=functions[:50] + [f'... {len(functions)} in all'],
